@@ -12,6 +12,12 @@ Definition ty_eqb (a b : ty) : bool :=
   match a, b with
   | TInt l h, TInt l' h' => Z.eqb l l' && Z.eqb h h'
   | TStr n, TStr n' => N.eqb n n'
+  | TEnum a, TEnum b => (fix le (a b : list (list N)) : bool :=
+                           match a, b with
+                           | [], [] => true
+                           | x :: a', y :: b' => bytes_eqb x y && le a' b'
+                           | _, _ => false
+                           end) a b
   | _, _ => false
   end.
 Definition col_eqb (a b : col) : bool := N.eqb (cn a) (cn b) && ty_eqb (cty a) (cty b) && Bool.eqb (cnullable a) (cnullable b).
